@@ -129,6 +129,30 @@ Proof. vm_compute. reflexivity. Qed.
 Example hs_long_line : run 0 false {| greeting := quiet; replies := [say [b "OK " ++ repeat 120 600 ++ CRLF]] |}
                        = (COk, full "30" false, []).
 Proof. vm_compute. reflexivity. Qed.
+(* the 16 KiB line limit (MAX_AUTH_LINE_LEN): a line is given up once more than 16384 bytes are buffered without
+   CR LF - checked before each read, so what the reads deliver decides the exact boundary *)
+Definition okx (n : nat) : list N := b "OK " ++ repeat 120 (n - 3).
+Definition run_len uid fd scr := let (res, s) := connect_to_bus uid fd scr in (res, len (received (log s)), len (unread s), len (log s)).
+(* 16384 bytes, then CR LF in the next read: still accepted *)
+Example hs_limit_at : run_len 0 false {| greeting := quiet; replies := [say [okx 16384; CRLF]] |} = (COk, 16386, 0, 36).
+Proof. vm_compute. reflexivity. Qed.
+(* 16385 bytes without CR LF are in the buffer: error, the CR LF is never read *)
+Example hs_limit_over : run_len 0 false {| greeting := quiet; replies := [say [okx 16385; CRLF]] |} = (CErr, 16385, 2, 35).
+Proof. vm_compute. reflexivity. Qed.
+(* byte-wise delivery: a 16383-byte line is the longest that is accepted, 16384 is not *)
+Definition bytewise (l : list N) : list (list N) := map (fun x => [x]) l.
+Example hs_limit_bytewise :
+  (fst (connect_to_bus 0 false {| greeting := quiet; replies := [say (okx 15872 :: bytewise (repeat 120 511 ++ CRLF))] |}),
+   fst (connect_to_bus 0 false {| greeting := quiet; replies := [say (okx 15872 :: bytewise (repeat 120 512 ++ CRLF))] |}))
+  = (COk, CErr).
+Proof. vm_compute. reflexivity. Qed.
+(* a server that streams garbage: the client gives up after 33 reads of 512 bytes, whatever follows *)
+Example hs_endless_garbage :
+  run_len 0 true {| greeting := quiet; replies := [say [repeat 120 100000]] |} = (CErr, 16896, 83104, 35).
+Proof. vm_compute. reflexivity. Qed.
+Example wf_ex scr : wf (sock_init scr).
+Proof. apply wf_init. Qed.
+
 Example pieces_long : map (@List.length N) (pieces (repeat 120 1100)) = [512; 512; 76]%nat.
 Proof. vm_compute. reflexivity. Qed.
 
